@@ -2,7 +2,7 @@
 
 use std::convert::TryFrom;
 
-use serde_json::json;
+use serde_json::{json, Value};
 
 use crate::gen_text::*;
 use crate::model::{J, N};
@@ -148,6 +148,28 @@ fn check_text(sub: &str, text: &str, model: &J, st: &mut Stats) -> CaseResult {
     let printed = var.to_string();
     let back = jmespath::Variable::from_json(&printed).map_err(|m| Failure::new(sub, "printed-text-does-not-parse", format!("{} : {}", printed, m), case.clone()))?;
     fidelity(&got, &var_to_j(&back), &mut String::from("$"), 2).map_err(|m| Failure::new(sub, "print-reparse-changes-value", format!("{} (printed {})", m, printed), case.clone()))?;
+    // 3b. a print whose destination fails midway leaves nothing behind: the next print is complete and the same
+    {
+        use std::fmt::Write as _;
+        let cap = (crate::src::fnv(text.as_bytes()) as usize) % (printed.len() + 2);
+        let mut w = Bounded { left: cap, out: String::new() };
+        let r = write!(w, "{}", var);
+        if r.is_ok() && w.out != printed {
+            return Err(Failure::new(sub, "print-not-deterministic", format!("second print gave {}", clip(&w.out, 200)), case));
+        }
+        if r.is_err() {
+            st.class("print-into-failing-writer");
+        }
+        let again = var.to_string();
+        if again != printed {
+            return Err(Failure::new(
+                sub,
+                "print-after-failed-print-differs",
+                format!("after a print that failed at byte {} the value prints as {} (before: {})", cap, clip(&again, 200), clip(&printed, 200)),
+                case,
+            ));
+        }
+    }
     // integers keep their integer spelling
     if let (J::Num(N::Int(i)), true) = (model, true) {
         if printed != i.to_string() {
@@ -174,6 +196,112 @@ fn check_text(sub: &str, text: &str, model: &J, st: &mut Stats) -> CaseResult {
         st.sample(|| json!({"json": text}));
     }
     Ok(())
+}
+
+/// A text sink that fails once its capacity is used up.
+struct Bounded {
+    left: usize,
+    out: String,
+}
+
+impl std::fmt::Write for Bounded {
+    fn write_str(&mut self, s: &str) -> std::fmt::Result {
+        if s.len() > self.left {
+            self.left = 0;
+            return Err(std::fmt::Error);
+        }
+        self.left -= s.len();
+        self.out.push_str(s);
+        Ok(())
+    }
+}
+
+/// Tables of very many distinct short strings of one length: each must come
+/// back as itself.  Sharing or interning of equal strings inside the value
+/// type is invisible; conflating different ones is not, and with n strings
+/// per thread a scheme that confuses two strings with probability p per pair
+/// of "similar" strings is met about n*n*p/2 times.
+fn string_table_text(round: u64, len: usize, count: usize) -> String {
+    let mut text = String::with_capacity(count * (len + 3) + 2);
+    text.push('[');
+    for i in 0..count {
+        if i > 0 {
+            text.push(',');
+        }
+        text.push('"');
+        let body = format!("{}", (round as usize) * count + i);
+        if body.len() >= len {
+            text.push_str(&body[body.len() - len..]);
+        } else {
+            text.push_str(&"k".repeat(len - body.len()));
+            text.push_str(&body);
+        }
+        text.push('"');
+    }
+    text.push(']');
+    text
+}
+
+fn string_table_rounds(thread: u64, rounds: u64, count: usize) -> Result<u64, Failure> {
+    const LENS: [usize; 6] = [8, 12, 6, 24, 9, 16];
+    let mut strings = 0u64;
+    for r in 0..rounds {
+        let len = LENS[(r as usize + thread as usize) % LENS.len()];
+        let round = thread * 1000 + r;
+        let text = string_table_text(round, len, count);
+        let case = json!({"thread": thread, "rounds": r + 1, "count": count});
+        let var = match catch(std::panic::AssertUnwindSafe(|| jmespath::Variable::from_json(&text))) {
+            Ok(Ok(v)) => v,
+            Ok(Err(m)) => return Err(Failure::new("string-tables", "valid-json-rejected", m, case)),
+            Err(p) => return Err(Failure::new("string-tables", "panic", p, case)),
+        };
+        let printed = var.to_string();
+        if printed != text {
+            // locate the first difference
+            let at = printed.bytes().zip(text.bytes()).position(|(a, b2)| a != b2).unwrap_or(printed.len().min(text.len()));
+            let lo = at.saturating_sub(30);
+            return Err(Failure::new(
+                "string-tables",
+                "string-changed",
+                format!("a table of {} distinct {}-byte strings does not print as it was read: ...{} instead of ...{}", count, len, clip(&printed[lo..], 80), clip(&text[lo..], 80)),
+                case,
+            ));
+        }
+        strings += count as u64;
+    }
+    Ok(strings)
+}
+
+fn string_tables(env: &Env, st: &mut Stats) -> Vec<Failure> {
+    let (rounds, count) = if env.tier == Tier::Thorough { (32u64, 500_000usize) } else { (4u64, 500_000usize) };
+    let results: Vec<Result<u64, Failure>> = std::thread::scope(|sc| {
+        let hs: Vec<_> = (0..16u64).map(|t| sc.spawn(move || string_table_rounds(t, rounds, count))).collect();
+        hs.into_iter().map(|h| h.join().unwrap_or_else(|_| Err(Failure::new("string-tables", "harness-panic", "worker panicked".into(), json!({}))))).collect()
+    });
+    let mut fails = vec![];
+    for r in results {
+        match r {
+            Ok(n) => {
+                st.evals(n);
+                st.class_n("string-table:strings", n);
+            }
+            Err(f) => fails.push(f),
+        }
+    }
+    for t in 0..16u64 {
+        st.nontrivial(&format!("string-table:{}:{}", t, rounds));
+    }
+    st.sample(|| json!({"string_table": "16 threads x rounds x 500000 distinct strings of 6..24 bytes", "rounds": rounds}));
+    fails
+}
+
+fn replay_string_tables(case: &Value, _env: &Env) -> CaseResult {
+    let thread = case["thread"].as_u64().unwrap_or(0);
+    let rounds = case["rounds"].as_u64().unwrap_or(1);
+    let count = case["count"].as_u64().unwrap_or(1000) as usize;
+    // the same sequence of tables, on one fresh thread
+    let h = std::thread::spawn(move || string_table_rounds(thread, rounds, count));
+    h.join().unwrap_or_else(|_| Err(Failure::new("string-tables", "harness-panic", "replay worker panicked".into(), json!({})))).map(|_| ())
 }
 
 fn documents(src: &mut Src, st: &mut Stats, _env: &Env) -> CaseResult {
@@ -265,6 +393,7 @@ pub fn property() -> Property {
         ],
         minimise: None,
         subs: vec![
+            Sub::Custom(CustomSub { name: "string-tables", run: string_tables, replay: replay_string_tables }),
             Sub::Bytes(BytesSub { name: "documents", f: documents, max_len: 1500, quick: Budget { threads: 8, cases: 4000 }, thorough: Budget { threads: 16, cases: 200_000 }, keep_unreproducible: false }),
             Sub::Bytes(BytesSub { name: "scalars", f: scalars, max_len: 64, quick: Budget { threads: 8, cases: 10_000 }, thorough: Budget { threads: 16, cases: 1_000_000 }, keep_unreproducible: false }),
             Sub::Bytes(BytesSub { name: "large", f: large, max_len: 16, quick: Budget { threads: 8, cases: 60 }, thorough: Budget { threads: 16, cases: 3000 }, keep_unreproducible: false }),
